@@ -588,6 +588,73 @@ def eof_dedents_ob(mp, log_dir, tier="quick"):
 
 
 
+FRAME_ALLOWED = {"handle_indentation": {"indent_stack", "pending_dedents", "at_line_start"}, "tokenize": {"indent_stack"}, "scan_token": {"pending_dedents", "at_line_start"},
+                 "open_bracket": {"bracket_depth"}, "close_bracket": {"bracket_depth"}}
+
+
+def layout_frame_ob(mp, log_dir, tier="quick"):
+    statement = ("frame condition that lets the step obligations stand for the whole lexer: the layout state (indent_stack, pending_dedents, at_line_start, bracket_depth) is written "
+                 "only by the functions those obligations execute - handle_indentation, scan_token, open_bracket, close_bracket, the end of tokenize - and by no token scanner")
+
+    def run():
+        import parse_props as pp
+        t0 = time.time()
+        P, R = pp.load()
+        td = R.resolve("lexer::Lexer")
+        names = [x[0] for x in td.variants[0][1]] if td else []
+        layout = ("indent_stack", "pending_dedents", "at_line_start", "bracket_depth")
+        if not all(n_ in names for n_ in layout):
+            raise Inconclusive("Lexer no longer has the fields of the layout state")
+        text = open(os.path.join(common.WORK_DIR, "mir", "incan_syntax.mir"), errors="replace").read()
+        writers, nfn, bad = {}, 0, []
+        for fn in re.split(r"\n(?=fn )", text):
+            m = re.match(r"fn ([^\n]*?)\(([^\n]*)\) ->", fn)
+            if not m:
+                continue
+            # every local of type Lexer / &mut Lexer (the receiver, or a captured one inside a closure environment is reached through _1 as well)
+            recv = [l for l, ty in re.findall(r"(_\d+): (&mut Lexer<'_>|Lexer<'_>)", m.group(2) + "\n" + fn)]
+            if not recv:
+                continue
+            nfn += 1
+            short = m.group(1).split("::")[-1] if not m.group(1).endswith("}") else m.group(1).split("::")[-2] + "::" + m.group(1).split("::")[-1]
+            for name in layout:
+                n = names.index(name)
+                for l in set(recv):
+                    pl = rf"\(\(\*{l}\)\.{n}: [^)]*\)|\({l}\.{n}: [^)]*\)"
+                    if re.search(rf"(?:{pl}) = ", fn) or re.search(rf"&mut (?:{pl})", fn):
+                        writers.setdefault(short, set()).add(name)
+        for fname, ws in sorted(writers.items()):
+            if fname == "new":
+                continue
+            extra = ws - FRAME_ALLOWED.get(fname, set())
+            if extra:
+                bad.append(f"{fname} writes {sorted(extra)}")
+        r = {"id": "X-layout_frame", "engine": "E2-X mirsmt (frame condition over the MIR text)", "statement": statement,
+             "bound": f"every function of incan_syntax with a local of type Lexer / &mut Lexer ({nfn} functions): direct field assignments and `&mut` borrows of the four fields; a write "
+                      "through a raw pointer or through a helper that takes `&mut usize` obtained elsewhere would not be seen",
+             "functions_encoded": sorted(f"{k} (MIR text)" for k in writers), "paths": nfn, "queries": 0, "wall_s": round(time.time() - t0, 2)}
+        if nfn < 5 or len(writers) < 3:
+            r.update(status="inconclusive", reason=f"only {nfn} Lexer functions / {len(writers)} writers found in the MIR dump: the scan does not see the lexer")
+            return r
+        r["vacuity_ok"] = True
+        if not bad:
+            r.update(status="held", solver=f"no solver query: {len(writers)} writers, all among the functions the step obligations execute")
+            return r
+        why = "; ".join(bad[:4])
+        broken, textn = layout_native(log_dir)
+        r["native"] = textn[:500]
+        if broken:
+            os.makedirs(os.path.join(common.REPLAYS_DIR, "MIRX"), exist_ok=True)
+            rp = os.path.join(common.REPLAYS_DIR, "MIRX", "X-layout_frame.replay")
+            open(rp, "w").write(f"mirx lexlayout\n# {why[:500]}\n# native: {textn[:500]}\n")
+            r.update(status="violated", replay=rp, counterexample={"path": why[:500], "native": textn[:500]})
+        else:
+            r.update(status="inconclusive", reason=f"a function outside the step obligations writes the layout state ({why[:300]}): the steps no longer cover the lexer; the layout battery still parses alike")
+        return r
+    return mp.XOb("X-layout_frame", statement, "", run)
+
+
+
 LAYOUT_BASE = '''def f(n: int) -> int:
     if n > 0:
         while n > 1:
@@ -604,6 +671,9 @@ def g(xs: List[int]) -> int:
             _ =>
                 pass
     return 0
+
+def h(sep: str) -> str:
+    return join(sep, ["a", "b"], {"k": f"{sep}!"})
 '''
 
 
@@ -629,7 +699,7 @@ def layout_variants(b):
         "trailing_spaces": "\n".join((l + "  " if l.strip() else l) for l in b.split("\n")),
         "blank_lines": b.replace("        return n\n", "        return n\n\n"),
         "comments": b.replace("    if n > 0:\n", "    # leading comment\n    if n > 0:  # trailing\n").replace("            n = n - 1\n", "            n = n - 1\n# col-0 comment\n        # deeper comment\n"),
-        "bracket_breaks": b.replace("def f(n: int) -> int:", "def f(\n        n: int\n) -> int:").replace("List[int]", "List[\n  int\n    ]"),
+        "bracket_breaks": b.replace("def f(n: int) -> int:", "def f(\n        n: int\n) -> int:").replace("List[int]", "List[\n  int\n    ]").replace('join(sep, ["a", "b"], {"k": f"{sep}!"})', 'join(sep,\n ["a",\n"b"\n  ], {"k":\n f"{sep}!"\n}\n)'),
         "mixed_tabs": "\n".join((reindent("\t").split("\n")[n_] if n_ % 2 else l) for n_, l in enumerate(b.split("\n"))),
         "final_nonl": b,
         "final_extra_newlines": b + "\n\n   \n",
@@ -667,4 +737,4 @@ def build(pid, tier, log_dir):
     import mirx_props as mp
     if pid != "C10":
         return []
-    return [indent_step_ob(mp, log_dir, tier), indent_count_ob(mp, log_dir, tier), scan_layout_ob(mp, log_dir, tier), eof_dedents_ob(mp, log_dir, tier)]
+    return [indent_step_ob(mp, log_dir, tier), indent_count_ob(mp, log_dir, tier), scan_layout_ob(mp, log_dir, tier), eof_dedents_ob(mp, log_dir, tier), layout_frame_ob(mp, log_dir, tier)]
